@@ -74,6 +74,13 @@ def handleDers : List String → Option String
       if !(okKv pu su Uu && okKv pv sv Uv && inDom pu su Uu u && inDom pv sv Uv v && P.length == su * sv) then return "ERR"
       return showPts2 (surfaceDersA38 pu pv (fn Uu) (fn Uv) su sv P
         (findSpanLinear pu (fn Uu) su u) (findSpanLinear pv (fn Uv) sv v) u v ord)
+  -- A3.7 + A3.8 as coded on the span pair the REPAIRED search finds (`surfaceDersA38R`): no empty-span guard
+  | ["sders38r", pu, pv, uus, uvs, su, sv, ps, u, v, ord] => do
+      let pu ← pu.toNat?; let pv ← pv.toNat?; let Uu ← parseList uus; let Uv ← parseList uvs
+      let su ← su.toNat?; let sv ← sv.toNat?; let P ← parsePts ps; let u ← parseRat u; let v ← parseRat v
+      let ord ← ord.toNat?
+      if !(okKv pu su Uu && okKv pv sv Uv && inDomR pu su Uu u && inDomR pv sv Uv v && P.length == su * sv) then return "ERR"
+      return showPts2 (surfaceDersA38R pu pv (fn Uu) (fn Uv) su sv P u v ord)
   | ["sdcpts37", pu, pv, uus, uvs, su, sv, ps, r1, r2, s1, s2, ord] => do
       let pu ← pu.toNat?; let pv ← pv.toNat?; let Uu ← parseList uus; let Uv ← parseList uvs
       let su ← su.toNat?; let sv ← sv.toNat?; let P ← parsePts ps
